@@ -167,6 +167,13 @@ def run(res):
     import props.C19 as C19
     for r in fw.run_parallel(C19.scene_case, [dict(seed=res.seed + 4, idx=i, quick=True) for i in range(16 if quick else 160)]):
         res.absorb(r)
+    # pairs closer than one time bin (coarse resolutions): C03's scenes compare the patch histograms bin by bin
+    # with an independently written solver of the recursion the property is about
+    import props.C03 as C03
+    c3 = [dict(seed=res.seed + 21, idx=4 * i + 2, kind=("poly" if i % 2 else "box"), max_patches=(16 if quick else 30))
+          for i in range(6 if quick else 80)]
+    for r in fw.run_parallel(C03.scene_case, c3):
+        res.absorb(r)
     # ... and a Kang object run a second time (another source first) must equal a fresh object, in every band
     for r in fw.run_parallel(C19.rerun_case, [dict(seed=res.seed + 9, idx=i) for i in range(4 if quick else 40)]):
         res.absorb(r)
@@ -184,6 +191,10 @@ def replay(res, payload):
         case = f.get("case", {})
         import props.C19 as C19
         if C19.replay_case(res, case):
+            continue
+        if "shape" in case and "kind" in case and "mode" in case:
+            import props.C03 as C03
+            res.absorb(C03.scene_case(dict(seed=case["seed"], idx=case["idx"], kind=case["kind"], max_patches=30)))
             continue
         if case.get("kernel"):
             res.absorb(kernel_case(dict(seed=case["seed"], idx=case["idx"])))
